@@ -9,6 +9,12 @@ from . import gen_driver as G, refmodel as R
 from .schema import PRIM_SIZE
 
 
+# operations whose *argument* is derived from the size found in the buffer: on steered images that argument is the
+# hostile value itself, i.e. the call no longer has "otherwise valid arguments"
+SIZE_AS_ARGUMENT = {"data-assign_range-same", "data-assign-count-same", "data-resize-same", "group-resize", "group-fill-header",
+                    "array-assign_range"}
+
+
 class Op:
     def __init__(self, kind, path, member, body, extent_kind, needs_index=False, needs_nonempty=False):
         self.kind, self.path, self.member, self.body = kind, path, member, body
@@ -237,7 +243,7 @@ int main()
     {
         vrt::tokens t;
         t.t = vrt::split(ln);
-        if(t.t.size() < 6)
+        if(t.t.size() < 7)
             continue;
         t.next();
         const std::string id = t.next();
@@ -248,13 +254,14 @@ int main()
         for(unsigned long long i = 0; i < nix; i++)
             ix.push_back(t.u64());
         const unsigned long long cap = t.u64();
+        const unsigned long long step = t.u64();      // buffer lengths tried: 0, step, 2*step, ... and always full
         std::vector<unsigned char> img = t.bytes();
         const std::size_t full = img.size();
         // per n: 0 = clean, 1 = assertion, 2 = touched memory at/after p+n and asserted, 3 = touched and did NOT assert (silent)
-        std::string silent, late, runaway;
+        std::string silent, late, runaway, before, aborted;
         long first_ok = -1;      // smallest n such that no assertion fires for any n' >= n
         long asserts = 0, faults = 0;
-        for(std::size_t n = 0; n <= full; n++)
+        for(std::size_t n = 0; n <= full; n = (n == full ? full + 1 : (n + step > full ? full : n + step)))
         {
             unsigned char* p = vrt::arena_place(img.data(), n, false);
             g_base = p;
@@ -275,18 +282,25 @@ int main()
                 faults++;
             if(rc == 3)
                 runaway += std::to_string(n) + ",";
-            if(nf && !as)
+            // the property speaks of bytes at or beyond p+n: a fault in front of the buffer (negative strides from
+            // counts beyond the signed range of the dimension type) is recorded but is not its subject
+            const bool beyond = nf && foff >= static_cast<long>(n);
+            if(nf && !beyond)
+                before += std::to_string(n) + ":" + std::to_string(foff) + (fw ? "w" : "r") + ",";
+            if(beyond && !as && rc == 2)
+                aborted += std::to_string(n) + ":" + std::to_string(foff) + (fw ? "w" : "r") + ",";
+            else if(beyond && !as)
                 silent += std::to_string(n) + ":" + std::to_string(foff) + (fw ? "w" : "r") + ",";
-            else if(nf && as)
+            else if(beyond && as)
                 late += std::to_string(n) + ":" + std::to_string(foff) + (fw ? "w" : "r") + ",";
             if(as || nf)
                 first_ok = -1;
             else if(first_ok < 0)
                 first_ok = static_cast<long>(n);
         }
-        std::printf("O %s first_ok=%ld asserts=%ld faults=%ld silent=%s late=%s runaway=%s last_assert_in=%s\n", id.c_str(), first_ok, asserts, faults,
+        std::printf("O %s first_ok=%ld asserts=%ld faults=%ld silent=%s late=%s runaway=%s before=%s aborted=%s last_assert_in=%s\n", id.c_str(), first_ok, asserts, faults,
                     silent.empty() ? "-" : silent.c_str(), late.empty() ? "-" : late.c_str(), runaway.empty() ? "-" : runaway.c_str(),
-                    asserts ? vrt::astate().func : "-");
+                    before.empty() ? "-" : before.c_str(), aborted.empty() ? "-" : aborted.c_str(), asserts ? vrt::astate().func : "-");
         std::fflush(stdout);
     }
     return 0;
